@@ -360,7 +360,8 @@ def Entity.update (d : Defects) (pri : List Key) (nsName : String) (old new : En
   let chk := fun f => checkField d f new.fields
   let done := okPrefix chk vis
   let fields1 := old.fields.map fun f => if done.any (·.name == f.name) then mergeField f new.fields else f
-  let e1 := { old with deprecated := new.deprecated, fields := fields1 }
+  -- /repo 0a9007e: `self.enable_full_text = new_entity.enable_full_text` next to `deprecated`
+  let e1 := { old with deprecated := new.deprecated, fullText := new.fullText, fields := fields1 }
   match firstErr chk vis with
   | some e => (e1, some e)
   | none =>
